@@ -23,7 +23,7 @@ CONSTANTS
     MaxFaults,       \* injected faults in total
     MaxEnv,          \* environment steps other than pod lifecycle (scale, admin ...) in total
     Drop,            \* the guard an attack configuration removes ("" = none)
-    OpsOn            \* operation types the environment may start: subset of OpTypes minus "syncpod"
+    OpsOn            \* operation types the environment may start: subset of OpTypes minus "syncpod" ("syncall" also turns the kubelet on)
 
 MC_Guards == AllGuards \ {Drop}
 VARIABLE hist        \* sequence of action descriptors (the schedule); excluded from the VIEW
@@ -44,6 +44,8 @@ M_Specs ==
       \* routable from two node subnets, a pool routable from one, and a node in no pool's subnet
       [] Scenario = "topo"          -> ("s-0" :> Sp("sts", "s", "", 1, <<>>)) @@ ("s-1" :> Sp("sts", "s", "", 0, <<>>))
       [] Scenario = "topo-ranges"   -> ("m-0" :> Sp("sts", "m", "", 1, << {"ip1"}, {"ip2", "ip3"} >>)) @@ ("s-1" :> Sp("sts", "s", "", 0, <<>>))
+      \* the periodic pod-ip sync (syncall) over running pods: a default and an immutable statefulset pod
+      [] Scenario = "sts-syncall"   -> ("s-0" :> Sp("sts", "s", "", 0, <<>>)) @@ ("s-1" :> Sp("sts", "s", "", 1, <<>>))
       [] OTHER                      -> [x \in {"s-0"} |-> Sp("sts", "s", "", 0, <<>>)]
 Topo == Scenario \in {"topo", "topo-ranges"}
 M_NodeSub == IF Topo THEN ("n1" :> "s1") @@ ("n2" :> "s2") @@ ("n3" :> "") ELSE ("n1" :> "s1") @@ ("n2" :> "s1")
@@ -88,11 +90,19 @@ CreatePod(n) ==
     /\ Do(CreatePodW(n), [a |-> "CreatePod", pod |-> n])
 DeletePod(n) == n \in DOMAIN pods /\ Do(DeletePodW(n), [a |-> "DeletePod", pod |-> n])
 FinishPod(n) == n \in DOMAIN pods /\ pods[n].phase # "Done" /\ pods[n].node # "" /\ Do(SetPhaseW(n, "Done"), [a |-> "FinishPod", pod |-> n])
+\* the kubelet starts a bound pod (only in configurations that run the periodic pod-ip sync: it is the only reader of "Running")
+KubeletRun(n) ==
+    /\ "syncall" \in OpsOn /\ n \in DOMAIN pods /\ pods[n].phase = "Pending" /\ pods[n].node # ""
+    /\ Do(SetPhaseW(n, "Running"), [a |-> "KubeletRun", pod |-> n])
 DeliverPod ==
     /\ pevq # <<>>
-    \* the handler of a running pod's update needs a free operation slot
-    /\ ~(Head(pevq).type = "upd" /\ Head(pevq).new.phase = "Running")
+    \* the informer calls its handlers one after the other: nothing is delivered while the handler of a running pod's update
+    \* (syncPodIP, an operation of its own) has not returned; that handler needs a free operation slot
+    /\ LiveOps("syncpod", "") = {}
+    /\ (Head(pevq).type = "upd" /\ Head(pevq).new.phase = "Running") =>
+          ("syncall" \in OpsOn /\ alive /\ Cardinality(DOMAIN ops) < MaxLive /\ ctr.op <= MaxOps)
     /\ Do(DeliverPodW, [a |-> "DeliverPod"])
+StartSyncAll == CanStart("syncall") /\ LiveOps("syncall", "") = {} /\ lpods # Emp /\ Do(StartSyncAllW, [a |-> "StartSyncAll"])
 ScaleSts(app, r) ==
     /\ ctr.env < MaxEnv /\ app \in DOMAIN sts /\ sts[app] # r
     /\ Do([Cur EXCEPT !.sts = Put(sts, app, r), !.ctr.env = ctr.env + 1], [a |-> "ScaleSts", app |-> app, replicas |-> r])
@@ -123,7 +133,8 @@ Step(id, f) ==
          Do([w EXCEPT !.ctr.faults = ctr.faults + (IF f = 0 THEN 0 ELSE 1)], [a |-> "Step", op |-> id, f |-> f])
 
 Next ==
-    \/ \E n \in DOMAIN Specs : CreatePod(n) \/ DeletePod(n) \/ FinishPod(n) \/ StartFilter(n)
+    \/ \E n \in DOMAIN Specs : CreatePod(n) \/ DeletePod(n) \/ FinishPod(n) \/ StartFilter(n) \/ KubeletRun(n)
+    \/ StartSyncAll
     \/ \E n \in DOMAIN Specs, node \in Nodes : StartBind(n, node)
     \/ DeliverPod \/ StartUnbind \/ StartResync
     \/ \E ip \in DOMAIN mem : StartApiRelease(ip)
@@ -201,6 +212,8 @@ FilterImpliesBindM ==
           \/ ctr.fb \in DOMAIN pods' /\ pods'[ctr.fb].node # ""
           \/ \E ip \in KeyIPs(mem, KeyOf(pods[ctr.fb])) : mem[ip].uid # "" /\ mem[ip].uid # pods[ctr.fb].uid]_mcvars
 
+\* vacuity probes (expected to be VIOLATED: used by lib to show that a configuration reaches the situation)
+ProbeSyncAllResurrects == \A id \in DOMAIN ops : ~(ops[id].type = "syncall" /\ ops[id].pc = "specific")
 MC_IPSeq == <<"ip1", "ip2", "ip3">>
 TsVals == {mem[ip].ts : ip \in DOMAIN mem}
 RankOf(t) == Cardinality({x \in TsVals : x < t})
